@@ -5,10 +5,10 @@ open Exetera Exetera.Spec
 
 /-- both passes of the filter kernel: the result encodes exactly the selected entries (and no access left its array) -/
 theorem filter_kernel_eq (v : Variant) (es : List (List Nat)) (flt : List Bool) (h : flt.length = es.length) :
-    applyFilterToIndexValues v flt (offsets es) es.flatten =
-      .ok (offsets (filterBy flt es), (filterBy flt es).flatten) := by
-  have hg : ¬ (v = .repaired ∧ flt.length ≠ (offsets es).length - 1) := by
-    simp [offsets, offsetsFrom_length, h]
+    applyFilterToIndexValues v flt (offsetsF es) es.flatten =
+      .ok (offsetsF (filterBy flt es), (filterBy flt es).flatten) := by
+  have hg : ¬ (v = .repaired ∧ flt.length ≠ (offsetsF es).length - 1) := by
+    simp [offsetsF, offsetsFrom_length, h]
   have h1 := filterPass1_spec es flt [] es rfl h 0 0
   have h2 := filterPass2_spec es flt [] es rfl h [] _ _ rfl rfl
   simp only [List.length_nil, Nat.zero_add, List.nil_append] at h1 h2
@@ -18,7 +18,7 @@ theorem filter_kernel_eq (v : Variant) (es : List (List Nat)) (flt : List Bool) 
 
 theorem index_kernel_eq (v : Variant) (es : List (List Nat)) (idx : List Int) (rows : List (List Nat))
     (h : gather es idx = some rows) :
-    applyIndicesToIndexValues v idx (offsets es) es.flatten = .ok (offsets rows, rows.flatten) := by
+    applyIndicesToIndexValues v idx (offsetsF es) es.flatten = .ok (offsetsF rows, rows.flatten) := by
   have h1 := indexPass1_spec v es idx rows h 0 0
   have h2 := indexPass2_spec es idx rows h [] _ _ rfl rfl
   simp only [Nat.zero_add, List.nil_append] at h1 h2
@@ -26,7 +26,7 @@ theorem index_kernel_eq (v : Variant) (es : List (List Nat)) (idx : List Int) (r
   simp only [h1, initP2_eq, h2, p2State_done]
 
 theorem index_kernel_err (es : List (List Nat)) (idx : List Int) (h : gather es idx = none) :
-    ∃ site, applyIndicesToIndexValues .repaired idx (offsets es) es.flatten = .error (.oob site) := by
+    ∃ site, applyIndicesToIndexValues .repaired idx (offsetsF es) es.flatten = .error (.oob site) := by
   obtain ⟨site, hs⟩ := indexPass1_err es idx h 0 0
   exact ⟨site, by unfold applyIndicesToIndexValues; simp only [hs]⟩
 
@@ -87,7 +87,7 @@ theorem fancyIndex_err {α} (xs : List α) (idx : List Int) (h : gather xs idx =
 /-- `p` stores the column `c`. An indexed string field that was never written holds `indices = []` rather than `[0]`. -/
 def Encodes : Payload → Column → Prop
   | .plain d, .nums xs => d = xs
-  | .indexed i v, .strs es => (i = offsets es ∨ (es = [] ∧ i = [])) ∧ v = es.flatten
+  | .indexed i v, .strs es => (i = offsetsF es ∨ (es = [] ∧ i = [])) ∧ v = es.flatten
   | _, _ => False
 
 theorem filterPayload_spec (v : Variant) (p : Payload) (c c' : Column) (bs : List Bool)
@@ -116,7 +116,7 @@ theorem filterPayload_spec (v : Variant) (p : Payload) (c c' : Column) (bs : Lis
         simp at hc; subst hc
         rcases hi with hi | ⟨he, hi⟩
         · subst hi hv
-          exact ⟨.indexed (offsets (filterBy bs es)) (filterBy bs es).flatten,
+          exact ⟨.indexed (offsetsF (filterBy bs es)) (filterBy bs es).flatten,
             by simp [filterPayload, filter_kernel_eq v es bs hl, Except.map], Or.inl rfl, rfl⟩
         · subst he hi hv
           have : bs = [] := List.eq_nil_of_length_eq_zero (by simpa using hl)
@@ -150,7 +150,7 @@ theorem filterPayload_err (p : Payload) (c : Column) (bs : List Bool)
       · rename_i hl
         have hlen : bs.length ≠ i.length - 1 := by
           rcases hi with hi | ⟨he, hi⟩
-          · subst hi; simpa [offsets, offsetsFrom_length] using hl
+          · subst hi; simpa [offsetsF, offsetsFrom_length] using hl
           · subst he hi; simpa using hl
         exact ⟨"len(index_filter) != len(indices) - 1",
           by simp [filterPayload, applyFilterToIndexValues, hlen, Except.map]⟩
@@ -188,7 +188,7 @@ theorem indexPayload_spec (v : Variant) (p : Payload) (c c' : Column) (idx : Lis
       obtain ⟨rows, hr, rfl⟩ := hc
       rcases hi with hi | ⟨he, hi⟩
       · subst hi hv
-        exact ⟨.indexed (offsets rows) rows.flatten,
+        exact ⟨.indexed (offsetsF rows) rows.flatten,
           by simp [indexPayload, index_kernel_eq v es idx rows hr, Except.map], Or.inl rfl, rfl⟩
       · subst he hi hv
         obtain ⟨rfl, rfl⟩ := gather_nil_eq_some idx rows hr
